@@ -308,7 +308,8 @@ def main(argv):
     t0 = time.time()
     os.chdir(VERIF)
     try:
-        prog = load_program(a.root)
+        # whole-tree pickles are only worth keeping for the tree that is checked again and again
+        prog = load_program(a.root, save_tree=os.path.realpath(a.root) == "/repo")
         ctx = run_rules(prop, prog, a.root, tier)
         counts = check_counts(prop, ctx)
         configs = ["default"]
